@@ -159,15 +159,23 @@ func isTimeTime(t types.Type) bool {
 }
 
 func (w *World) structOf(t types.Type) (*StructInfo, bool) {
-	n, ok := t.(*types.Named)
-	if !ok {
+	var st *types.Struct
+	var name string
+	switch n := t.(type) {
+	case *types.Named:
+		s, ok := n.Underlying().(*types.Struct)
+		if !ok {
+			return nil, false
+		}
+		st = s
+		name = w.shortName(n)
+	case *types.Struct:
+		// anonymous struct type: named by a hash of its field list
+		st = n
+		name = fmt.Sprintf("Anon%x", hashStr(types.TypeString(n, nil)))
+	default:
 		return nil, false
 	}
-	st, ok := n.Underlying().(*types.Struct)
-	if !ok {
-		return nil, false
-	}
-	name := w.shortName(n)
 	if si, ok := w.structs[name]; ok {
 		return si, true
 	}
@@ -181,9 +189,8 @@ func (w *World) structOf(t types.Type) (*StructInfo, bool) {
 }
 
 func (w *World) dataOf(t types.Type) *Sort {
-	n := t.(*types.Named)
 	si, _ := w.structOf(t)
-	name := w.shortName(n)
+	name := si.Name
 	if _, ok := w.datas[name]; !ok {
 		w.datas[name] = si
 		w.dataOrder = append(w.dataOrder, name)
@@ -254,8 +261,7 @@ func (w *World) SortOf(t types.Type) *Sort {
 	case *types.Interface:
 		return SAny
 	case *types.Struct:
-		// anonymous struct: model as opaque data
-		return &Sort{K: KData, Name: "anon"}
+		return w.dataOf(t)
 	case *types.Tuple:
 		s := &Sort{K: KTuple}
 		for i := 0; i < u.Len(); i++ {
